@@ -467,10 +467,10 @@ func exec3(r *ev.Run, nIDs int, h []event, again *bool) (string, string, *seqx.F
 		for _, hd := range []any{post.Cur, post.Fut} {
 			if hd != nil {
 				if _, ok := m.capOf[hd]; !ok {
-					m.capOf[hd] = dropCaps[m.d] // a generation created during this event
-					if e.Op == "resizeK" || e.Op == "resizeD" {
-						ev.Harness("a filter generation appeared during Resize; capacity attribution would be ambiguous")
-					}
+					// a generation created during this event. (The code as it is never creates one during a Resize; an
+					// implementation that does gets the capacity in force after the event attributed to it, and what
+					// the generation it replaced was holding is judged by the retention clause like any other loss.)
+					m.capOf[hd] = dropCaps[m.d]
 				}
 			}
 		}
@@ -690,6 +690,8 @@ func main() {
 		Exec:     func(h []event) (string, string, *seqx.Failure) { return exec(r, nIDs, h) },
 		Expand:   func(h []event) bool { _, ex := excluded.Load(hkey(h)); return !ex },
 		MaxDepth: depth, Workers: 16,
+		// every history of length <= 4 is executed whatever the canonical key says
+		NoMergeDepth: 3,
 	})
 	// Directed family for the dropped side: only one trace ID and the events that move the two filter
 	// generations (fill, maintain, drain, resize of the dropped capacity, clock), so that histories such as
@@ -710,6 +712,8 @@ func main() {
 		Exec:     func(h []event) (string, string, *seqx.Failure) { return exec(r, nIDs, h) },
 		Expand:   func(h []event) bool { _, ex := excluded.Load(hkey(h)); return !ex },
 		MaxDepth: dd, Workers: 16,
+		// every history of length <= 5 is executed whatever the canonical key says (alphabet of 5-6 events)
+		NoMergeDepth: 4,
 	})
 	r.Set("traces_validated_against_impl", r.Count("transitions"))
 	for _, k := range []string{"excluded_filter_false_positive", "excluded_add_queue_overflow", "excluded_cuckoo_eviction"} {
